@@ -3,7 +3,7 @@
 # Reads /tmp/seed/<ID>/SEED/{patch.diff,meta.json} (+ the demo test file left in that worktree),
 # works in a scratch worktree, writes /verif/seeded/<ID>/{patch.diff,demo_test.go,meta.json}.
 export GOFLAGS=-mod=mod GOPROXY=off GOSUMDB=off GOTOOLCHAIN=local
-id=$1; src=/tmp/seed/$id; out=/verif/seeded/$id; log=/var/tmp/seedlog-$id.txt
+id=$1; SEEDROOT=${SEEDROOT:-/tmp/seed}; OUTROOT=${OUTROOT:-/verif/seeded}; src=$SEEDROOT/$id; out=$OUTROOT/$id; log=/var/tmp/seedlog-$id.txt
 [ -f $src/SEED/patch.diff ] || { echo "$id no-seed"; exit 0; }
 grep -q '"status": *"none"' $src/SEED/meta.json 2>/dev/null && { echo "$id agent-found-none"; mkdir -p $out; cp $src/SEED/meta.json $out/agent_meta.json; exit 0; }
 mkdir -p $out; : > $log
@@ -34,14 +34,16 @@ cout=$(/verif/bin/vcheck $id --mutant $out/patch.diff --tier quick 2>&1); code=$
 res_check="exit$code"; [ $code -eq 1 ] && res_check=detected; [ $code -eq 0 ] && res_check=MISSED; [ $code -eq 2 ] && res_check=ERROR
 what=$(echo "$cout" | grep -m1 'what:' | cut -c1-200)
 echo "$cout" | tail -5 >> $log
-python3 - "$id" "$demo" "$res_apply" "$res_build" "$res_demo_without" "$res_demo_with" "$res_repo" "$res_check" "$what" "$pkgs" <<'PY'
+SEEDROOT=$SEEDROOT OUTROOT=$OUTROOT python3 - "$id" "$demo" "$res_apply" "$res_build" "$res_demo_without" "$res_demo_with" "$res_repo" "$res_check" "$what" "$pkgs" <<'PY'
 import json,sys
 id,demo,ap,bu,dwo,dw,repo,chk,what,pkgs=sys.argv[1:11]
-try: am=json.load(open(f'/tmp/seed/{id}/SEED/meta.json'))
+import os
+SR=os.environ['SEEDROOT']; OR=os.environ['OUTROOT']
+try: am=json.load(open(f'{SR}/{id}/SEED/meta.json'))
 except Exception as e: am={"error":str(e)}
 m={"property":id,"agent_meta":am,"demo_file":demo,"verified_by_maintainer":{"patch_applies":ap,"go_build":bu,"demo_without_patch":dwo,"demo_with_patch":dw,
  "repo_tests_of_touched_packages":repo,"repo_test_cmd":"go test -count=1 -vet=off -skip TestWatchCoordinationWindows "+pkgs.replace("\n"," ")},
- "our_check":{"cmd":f"./bin/vcheck {id} --mutant /verif/seeded/{id}/patch.diff --tier quick","result":chk,"what":what}}
-json.dump(m,open(f'/verif/seeded/{id}/meta.json','w'),indent=1)
+ "our_check":{"cmd":f"./bin/vcheck {id} --mutant {OR}/{id}/patch.diff --tier quick","result":chk,"what":what}}
+json.dump(m,open(f'{OR}/{id}/meta.json','w'),indent=1)
 PY
 echo "$id apply=$res_apply build=$res_build demo_without=$res_demo_without demo_with=$res_demo_with repo=$res_repo check=$res_check $what"
